@@ -735,7 +735,7 @@ Qed.
 
 Lemma NB_env e s : NB s -> NB (apply_env w e s).
 Proof.
-  intros [P N]. split; [exact (PM_step (c := c) w o (LEnv e) Hpop P)|].
+  intros [P N]. split; [exact (@PM_step c w o (LEnv e) s Hpop P)|].
   destruct e as [i|n'].
   - (* sys.modules operation: nothing the body mentions changes *)
     simpl. destruct (apply_ir_fields i s) as (a&b&_&_&e&f&_). destruct (ir_ghost i s) as [g h].
@@ -755,15 +755,17 @@ Proof.
     simpl.
     destruct (m_get (pend s) n') eqn:PE; [|destruct (m_get (mods s) n') as [o'|] eqn:MO; [destruct (has_own w s o') eqn:HO|]].
     + (* refused *)
-      unfold NBody. simpl. repeat split; auto.
-      * intros e [H|H]; [subst; reflexivity|apply NOMB; exact H].
-      * intros H. exfalso. eapply NoMn; [| |exact H]; simpl; auto. intros e [X|X] Y; [subst; discriminate|exact X].
-      * intros H _. eapply NoMc; [| |exact H]; simpl; auto. intros e [X|X] Y; [subst; discriminate|exact X].
-      * intros f n0 o0 [H|H]; [discriminate|eapply N4; exact H].
+      unfold NBody. simpl.
+      split; [intros _; split; [exact PO|split; [exact ID|]]|split; [|split]].
+      * intros e [X|X]; [subst; reflexivity|apply NOMB; exact X].
+      * intros X. exfalso. eapply NoMn; [| |exact X]; simpl; auto. intros e [Y|Y] Z; [subst; discriminate|exact Y].
+      * intros X _. eapply NoMc; [| |exact X]; simpl; auto. intros e [Y|Y] Z; [subst; discriminate|exact Y].
+      * intros f1 n1 o1 [X|X]; [discriminate|eapply N4; exact X].
     + (* module brings its own glue: dropped *)
-      unfold NBody. simpl. repeat split; auto.
-      * intros H. exfalso. eapply NoMn; [| |exact H]; simpl; auto.
-      * intros H _. eapply NoMc; [| |exact H]; simpl; auto.
+      unfold NBody. simpl.
+      split; [intros _; split; [exact PO|split; [exact ID|exact NOMB]]|split; [|split; [|exact N4]]].
+      * intros X. exfalso. eapply NoMn; [| |exact X]; simpl; auto.
+      * intros X _. eapply NoMc; [| |exact X]; simpl; auto.
     + (* run at once: no extraction has started, so nothing is popped: the module has no glue *)
       assert (GN : glue_of w o' = None).
       { unfold has_own in HO. rewrite PO in HO. destruct (glue_of w o'); [discriminate|reflexivity]. }
@@ -771,16 +773,620 @@ Proof.
         (add_log (mkst (mods s) (popped s) (pend s) (cache s) (lock s) (thr s) (log s) (S (nreg s))
            (g_since_cache s) (g_since_snap s) (g_nrem s) (g_started s) (g_late s || g_started s)
            (g_snap_cache s) (g_snap_scan s)) (EvImm (nreg s) n' o'))) as [X1 X2].
-      rewrite X1. unfold Mn, Mc, Bc. irs_rw. simpl. repeat split; auto.
-      * intros e [H|H]; [subst; reflexivity|apply NOMB; exact H].
-      * intros H. exfalso. eapply (NoMn (add_log s (EvImm (nreg s) n' o'))); simpl; auto.
-        intros e [X|X] Y; [subst; discriminate|exact X].
-      * intros H _. eapply (NoMc (add_log s (EvImm (nreg s) n' o'))); simpl; auto.
-        intros e [X|X] Y; [subst; discriminate|exact X].
-      * intros f n0 o0 [H|H]; [inversion H; subst; exact GN|eapply N4; exact H].
+      rewrite X1. unfold Mn, Mc, Bc. irs_rw. simpl.
+      split; [intros _; split; [exact PO|split; [exact ID|]]|split; [|split]].
+      * intros e [X|X]; [subst; reflexivity|apply NOMB; exact X].
+      * intros X. exfalso. eapply (NoMn (add_log s (EvImm (nreg s) n' o'))); simpl; auto.
+        intros e [Y|Y] Z; [subst; discriminate|exact Y].
+      * intros X _. eapply (NoMc (add_log s (EvImm (nreg s) n' o'))); simpl; auto.
+        intros e [Y|Y] Z; [subst; discriminate|exact Y].
+      * intros f1 n1 o1 [X|X]; [inversion X; subst; exact GN|eapply N4; exact X].
     + (* made pending *)
-      unfold NBody. simpl. repeat split; auto.
-      * intros H. exfalso. eapply NoMn; [| |exact H]; simpl; auto.
-      * intros H _. eapply NoMc; [| |exact H]; simpl; auto.
+      unfold NBody. simpl.
+      split; [intros _; split; [exact PO|split; [exact ID|exact NOMB]]|split; [|split; [|exact N4]]].
+      * intros X. exfalso. eapply NoMn; [| |exact X]; simpl; auto.
+      * intros X _. eapply NoMc; [| |exact X]; simpl; auto.
+Qed.
+
+Lemma npc_Mn p : is_pcall p = false -> Mn_thr p = false.
+Proof. destruct p; simpl; try reflexivity; discriminate. Qed.
+Lemma npc_Mc p : is_pcall p = false -> Mc_thr p = false.
+Proof. destruct p; simpl; try reflexivity; discriminate. Qed.
+Lemma npc_Bc p : is_pcall p = false -> Bc_thr p = false.
+Proof. destruct p; simpl; try reflexivity; discriminate. Qed.
+
+Lemma NB_tstep t s : NB s -> NB (tstep c w t s).
+Proof.
+  intros [P N]. split; [exact (@PM_step c w o (LThr t) s Hpop P)|].
+  destruct (is_pcall (thr s t)) eqn:IC; [|destruct (is_scan_cons (thr s t)) eqn:IS].
+  - (* the call *)
+    destruct (thr s t) as [| |l| | |todo k|nm mf bf cur todo k|ok] eqn:E; try discriminate.
+    unfold tstep. rewrite E.
+    destruct (call_spec c w t nm mf bf cur todo k s) as (PO & PE & (p' & T & PP) & L).
+    destruct (call_ghost c w t nm mf bf cur todo k s) as [GS GL].
+    assert (NP : is_pcall p' = false) by (destruct PP; subst; reflexivity).
+    rewrite GL. intros G. destruct (N G) as (N0 & N1 & N5 & N4).
+    assert (MN : Mn (call c w t nm mf bf cur todo k s) -> Mn s).
+    { intros [(o' & d & H)|H].
+      - apply L in H. destruct H as [H|[H|[[b H]|H]]]; try discriminate; [left; eauto|].
+        right. exists t. rewrite E. unfold call_event in H. destruct mf; [|destruct bf; discriminate].
+        inversion H; subst. simpl. apply Nat.eqb_refl.
+      - rewrite T in H. apply ex_upd in H. destruct H as [H|H]; [rewrite npc_Mn in H by exact NP; discriminate|right; exact H]. }
+    assert (MC : Mc (call c w t nm mf bf cur todo k s) -> Mc s).
+    { intros [(d & H)|H].
+      - apply L in H. destruct H as [H|[H|[[b H]|H]]]; try discriminate; [left; eauto|].
+        right. exists t. rewrite E. unfold call_event in H. destruct mf; [|destruct bf; discriminate].
+        inversion H; subst. simpl. rewrite !Nat.eqb_refl. reflexivity.
+      - rewrite T in H. apply ex_upd in H. destruct H as [H|H]; [rewrite npc_Mc in H by exact NP; discriminate|right; exact H]. }
+    assert (BC : Bc (call c w t nm mf bf cur todo k s) -> Bc s).
+    { intros [(f & H)|H].
+      - apply L in H. destruct H as [H|[H|[[b H]|H]]]; try discriminate; [left; eauto|].
+        right. exists t. rewrite E. unfold call_event in H. destruct mf; [discriminate|]. destruct bf; [|discriminate].
+        inversion H; subst. simpl. rewrite !Nat.eqb_refl. reflexivity.
+      - rewrite T in H. apply ex_upd in H. destruct H as [H|H]; [rewrite npc_Bc in H by exact NP; discriminate|right; exact H]. }
+    unfold NBody. rewrite GS, PE.
+    split; [intros X; destruct (N0 X) as (_ & ID & _); rewrite ID in E; discriminate|split; [|split]].
+    + intros X. apply N1. apply MN. exact X.
+    + intros X Y. apply N5; [apply MC; exact X|apply BC; exact Y].
+    + intros f1 n1 o1 H. apply L in H. destruct H as [H|[H|[[b H]|H]]]; try discriminate; [eapply N4; exact H|].
+      unfold call_event in H. destruct mf; [discriminate|destruct bf; discriminate].
+  - (* the visit *)
+    destruct (thr s t) as [| |l| | |todo k|nm mf bf cur todo k|ok] eqn:E; try discriminate.
+    destruct todo as [|nm todo]; [discriminate|].
+    unfold tstep. rewrite E.
+    destruct (visit_spec c w t nm todo k s Hpop) as (PO & PE & LG & T & _ & _ & _ & _ & _ & _ & GS & GL & _).
+    rewrite GL. intros G. destruct (N G) as (N0 & N1 & N5 & N4).
+    assert (NOLD : forall Q : pc -> bool, Q (thr s t) = false ->
+              (exists t', Q (thr (visit c w t nm todo k s) t') = true) ->
+              Q (visit_pc w s nm todo k) = true \/ exists t', Q (thr s t') = true).
+    { intros Q _ H. rewrite T in H. apply ex_upd in H. exact H. }
+    assert (MCnew : Mc_thr (visit_pc w s nm todo k) = true -> nm = n /\ visit_mf w s nm = Some o).
+    { unfold visit_pc. destruct (some_or _ _); [|discriminate]. simpl.
+      destruct (visit_mf w s nm) as [o'|]; [|discriminate]. intros H. apply andb_true_iff in H.
+      destruct H as [H1 H2]. apply Nat.eqb_eq in H1. apply Nat.eqb_eq in H2. subst. auto. }
+    assert (BCnew : Bc_thr (visit_pc w s nm todo k) = true ->
+              nm = n /\ visit_mf w s nm = None /\ m_get (pend s) n <> None).
+    { unfold visit_pc. destruct (some_or _ _); [|discriminate]. simpl.
+      destruct (visit_mf w s nm) as [o'|]; [discriminate|]. destruct (m_get (pend s) nm) eqn:PD; [|discriminate].
+      destruct (m_get (mods s) nm); [|discriminate]. intros H. apply andb_true_iff in H.
+      destruct H as [H1 H2]. apply Nat.eqb_eq in H1. subst. repeat split; auto. congruence. }
+    unfold NBody. rewrite GS, PE, LG.
+    split; [intros X; destruct (N0 X) as (_ & ID & _); rewrite ID in E; discriminate|split; [|split; [|exact N4]]].
+    + intros [X|X].
+      * apply m_get_del_none. apply N1. left. rewrite LG in X. exact X.
+      * apply (NOLD Mn_thr) in X; [|rewrite E; reflexivity]. destruct X as [X|X].
+        -- unfold visit_pc in X. destruct (some_or _ _); [|discriminate]. simpl in X.
+           destruct (visit_mf w s nm); [|discriminate]. apply Nat.eqb_eq in X. subst. apply m_get_del_same.
+        -- apply m_get_del_none. apply N1. right. exact X.
+    + intros X Y.
+      assert (X' : Mc s \/ (nm = n /\ visit_mf w s nm = Some o)).
+      { destruct X as [X|X]; [left; left; rewrite LG in X; exact X|].
+        apply (NOLD Mc_thr) in X; [|rewrite E; reflexivity]. destruct X as [X|X]; [right; apply MCnew; exact X|left; right; exact X]. }
+      assert (Y' : Bc s \/ (nm = n /\ visit_mf w s nm = None /\ m_get (pend s) n <> None)).
+      { destruct Y as [Y|Y]; [left; left; rewrite LG in Y; exact Y|].
+        apply (NOLD Bc_thr) in Y; [|rewrite E; reflexivity]. destruct Y as [Y|Y]; [right; apply BCnew; exact Y|left; right; exact Y]. }
+      destruct X' as [X'|[X1 X2]]; destruct Y' as [Y'|(Y1 & Y2 & Y3)].
+      * exact (N5 X' Y').
+      * apply Y3. apply N1. apply Mc_Mn. exact X'.
+      * destruct (visit_mf_some w s nm X2) as (_ & GN & NP).
+        destruct (Bc_settled P Y') as [Z|Z]; [exact (GN Z)|exact (NP Z)].
+      * congruence.
+  - (* everything else *)
+    destruct (tstep_quiet c w t s IC IS) as (PO & PE & _ & L1 & L2 & (p' & NP & T) & GL & GS).
+    rewrite GL. intros G. destruct (N G) as (N0 & N1 & N5 & N4).
+    assert (TH : forall Q : pc -> bool, (forall p, is_pcall p = false -> Q p = false) ->
+              (exists t', Q (thr (tstep c w t s) t') = true) -> exists t', Q (thr s t') = true).
+    { intros Q HQ H. destruct T as [T|T]; rewrite T in H; [|exact H].
+      apply ex_upd in H. destruct H as [H|H]; [rewrite HQ in H by exact NP; discriminate|exact H]. }
+    assert (MN : Mn (tstep c w t s) -> Mn s).
+    { intros [(o' & d & H)|H]; [|right; apply (TH Mn_thr npc_Mn H)].
+      apply L1 in H. destruct H as [H|[b H]]; [left; eauto|discriminate]. }
+    assert (MC : Mc (tstep c w t s) -> Mc s).
+    { intros [(d & H)|H]; [|right; apply (TH Mc_thr npc_Mc H)].
+      apply L1 in H. destruct H as [H|[b H]]; [left; eauto|discriminate]. }
+    assert (BC : Bc (tstep c w t s) -> Bc s).
+    { intros [(f & H)|H]; [|right; apply (TH Bc_thr npc_Bc H)].
+      apply L1 in H. destruct H as [H|[b H]]; [left; eauto|discriminate]. }
+    unfold NBody. rewrite PE.
+    split; [|split; [|split]].
+    + intros X. destruct GS as [GS|[GS NI]]; [congruence|].
+      rewrite GS in X. destruct (N0 X) as (_ & ID & _). elim NI. apply ID.
+    + intros X. apply N1. apply MN. exact X.
+    + intros X Y. apply N5; [apply MC; exact X|apply BC; exact Y].
+    + intros f1 n1 o1 H. apply L1 in H. destruct H as [H|[b H]]; [eapply N4; exact H|discriminate].
+Qed.
+
+Lemma NB_step l s : NB s -> NB (step c w l s).
+Proof. destruct l; simpl; [apply NB_env|apply NB_tstep]. Qed.
+
+Lemma NB_init scanned : NB (init w scanned).
+Proof.
+  split; [split; simpl; [tauto|discriminate]|].
+  intros _. unfold NBody, Mn, Mc, Bc. simpl.
+  split; [intros _; repeat split; tauto|split; [|split]].
+  - intros [(o' & d & [])|[t H]]; discriminate.
+  - intros [(d & [])|[t H]]; discriminate.
+  - intros f1 n1 o1 [].
 Qed.
 End NeverBoth.
+
+Lemma popped_glue c w scanned s : c_pop c = true -> reachable c w scanned s ->
+  forall o, In o (popped s) -> glue_of w o <> None.
+Proof.
+  intros Hpop R.
+  refine (@reachable_ind c w scanned (fun s => forall o, In o (popped s) -> glue_of w o <> None) _ _ s R).
+  - simpl. tauto.
+  - intros s0 l IH o. destruct l as [e|t]; simpl.
+    + destruct (nM_env w 0 e s0) as (_ & P & _). rewrite P. apply IH.
+    + destruct (is_pcall (thr s0 t)) eqn:IC; [|destruct (is_scan_cons (thr s0 t)) eqn:IS].
+      * destruct (thr s0 t) as [| |l| | |todo k|nm mf bf cur todo k|ok] eqn:E; try discriminate.
+        unfold tstep. rewrite E. destruct (call_spec c w t nm mf bf cur todo k s0) as (PO & _). rewrite PO. apply IH.
+      * destruct (thr s0 t) as [| |l| | |todo k|nm mf bf cur todo k|ok] eqn:E; try discriminate.
+        destruct todo as [|nm todo]; [discriminate|]. unfold tstep. rewrite E.
+        destruct (visit_spec c w t nm todo k s0 Hpop) as (PO & _). rewrite PO.
+        destruct (visit_mf w s0 nm) as [o'|] eqn:V; [|apply IH].
+        intros [H|H]; [subst; apply (visit_mf_some w s0 nm V)|apply IH; exact H].
+      * destruct (tstep_quiet c w t s0 IC IS) as (PO & _). rewrite PO. apply IH.
+Qed.
+
+Theorem never_both (w : world) (scanned : bool) (ls : list label) (n o : nat) :
+  glue_pop_before_call = true ->
+  let s := run src_cfg w ls (init w scanned) in
+  g_late s = false ->
+  forall d, In (EvCallM o n d) (log s) ->
+  (forall f, ~ In (EvCallB f n (Some o)) (log s)) /\ (forall f, ~ In (EvImm f n o) (log s)).
+Proof.
+  intros Hp s GL d HM.
+  assert (R : reachable src_cfg w scanned s) by (exists ls; reflexivity).
+  assert (I : NB w n o s).
+  { revert R. apply reachable_ind with (P := NB w n o).
+    - apply NB_init.
+    - intros s0 l I. apply NB_step; [exact Hp|exact I]. }
+  destruct I as [_ I]. destruct (I GL) as (_ & _ & N5 & N4).
+  split; intros f H.
+  - apply N5; [left; eauto|left; eauto].
+  - apply N4 in H.
+    assert (IMo := IM_reachable (c := src_cfg) (w := w) Hp o R).
+    destruct IMo as (_ & _ & C & _).
+    assert (PG := @popped_glue src_cfg w scanned s Hp R).
+    assert (Z : 0 < nM o (log s)) by (apply nM_calledM; eauto).
+    destruct (in_dec Nat.eq_dec o (popped s)) as [IP|NIP].
+    + exact (PG o IP H).
+    + specialize (C NIP). lia.
+Qed.
+
+(* the hypothesis is met by a history with both kinds on offer, and by one registered after import *)
+Definition nb_hist := [LEnv (EReg 0); LEnv (EIR (IIns 0 0)); LEnv (EIR (IIns 1 1)); LEnv (EReg 1);
+                       LThr 0; LThr 0; LThr 0; LThr 0; LThr 0; LThr 0; LThr 0; LThr 0].
+Definition nb_world := mkworld 1 [OMod (Some (mkfn BOk [])); OMod None] [mkfn BOk []; mkfn BOk []].
+Example never_both_hyp_met :
+  let s := run src_cfg nb_world nb_hist (init nb_world true) in
+  g_late s = false /\ In (EvCallM 0 0 (Some 0)) (log s) /\ In (EvImm 1 1 1) (log s).
+Proof. vm_compute. repeat split; auto. Qed.
+
+(* ------------------------------------------------------------------ the global invariant behind timeliness *)
+Lemma m_get_set M n o a : m_get (m_set M n o) a = if a =? n then Some o else m_get M a.
+Proof.
+  induction M as [|[k v] r IH]; simpl.
+  - destruct (Nat.eqb_spec n a); destruct (Nat.eqb_spec a n); try congruence; reflexivity.
+  - destruct (Nat.eqb_spec k n).
+    + subst k. simpl. destruct (Nat.eqb_spec n a); destruct (Nat.eqb_spec a n); try congruence; reflexivity.
+    + simpl. destruct (Nat.eqb_spec k a).
+      * subst k. destruct (Nat.eqb_spec a n); [congruence|reflexivity].
+      * exact IH.
+Qed.
+
+Lemma m_get_In M a b : m_get M a = Some b -> In (a, b) M.
+Proof.
+  induction M as [|[k v] r IH]; simpl; [discriminate|].
+  destruct (Nat.eqb_spec k a); [intros H; inversion H; subst; left; reflexivity|intros H; right; auto].
+Qed.
+
+Lemma In_m_get M a b : NoDup (map fst M) -> In (a, b) M -> m_get M a = Some b.
+Proof.
+  induction M as [|[k v] r IH]; simpl; [tauto|].
+  intros ND [H|H].
+  - inversion H; subst. rewrite Nat.eqb_refl. reflexivity.
+  - inversion ND; subst. destruct (Nat.eqb_spec k a).
+    + subst k. exfalso. apply H2. change a with (fst (a, b)). apply in_map. exact H.
+    + apply IH; assumption.
+Qed.
+
+Lemma fst_m_set M n o : map fst (m_set M n o) = if mem_nat n (map fst M) then map fst M else map fst M ++ [n].
+Proof.
+  induction M as [|[k v] r IH]; simpl; [reflexivity|].
+  unfold mem_nat in *. simpl. destruct (Nat.eqb_spec k n).
+  - subst. rewrite Nat.eqb_refl. simpl. reflexivity.
+  - simpl. rewrite IH. destruct (Nat.eqb_spec n k); [congruence|]. simpl.
+    destruct (existsb (Nat.eqb n) (map fst r)); reflexivity.
+Qed.
+
+Lemma NoDup_snoc (l : list nat) n : NoDup l -> ~ In n l -> NoDup (l ++ [n]).
+Proof.
+  induction l as [|x l IH]; simpl; intros ND NI.
+  - repeat constructor. simpl. tauto.
+  - inversion ND; subst. constructor.
+    + rewrite in_app_iff. simpl. intros [H|[H|[]]]; [auto|subst; tauto].
+    + apply IH; [assumption|tauto].
+Qed.
+
+Lemma NoDup_m_set M n o : NoDup (map fst M) -> NoDup (map fst (m_set M n o)).
+Proof.
+  intros ND. rewrite fst_m_set. destruct (mem_nat n (map fst M)) eqn:Q; [exact ND|].
+  apply mem_nat_false in Q.
+  apply NoDup_snoc; assumption.
+Qed.
+
+Lemma In_fst_m_del M n a : In a (map fst (m_del M n)) -> In a (map fst M).
+Proof.
+  induction M as [|[k v] r IH]; simpl; [tauto|].
+  destruct (k =? n); simpl; [right; auto|intros [H|H]; [left; exact H|right; auto]].
+Qed.
+
+Lemma NoDup_m_del M n : NoDup (map fst M) -> NoDup (map fst (m_del M n)).
+Proof.
+  induction M as [|[k v] r IH]; simpl; [auto|].
+  intros ND. inversion ND; subst. destruct (k =? n); [auto|].
+  simpl. constructor; [|auto]. intros H. apply H1. eapply In_fst_m_del. exact H.
+Qed.
+
+Definition in_region (p : pc) : bool :=
+  match p with PLocked | PScan _ _ | PCall _ _ _ _ _ _ => true | _ => false end.
+Definition scan_of (p : pc) : option (list nat * nat) :=
+  match p with
+  | PScan todo k => Some (todo, k)
+  | PCall _ _ _ _ todo k => Some (todo, k)
+  | _ => None
+  end.
+Definition sub_ok (S M : list (nat * nat)) : Prop := forall a b, In (a, b) S -> m_get M a = Some b.
+
+Section Invariant.
+Variable c : cfg.
+Variable w : world.
+Hypothesis Hpop : c_pop c = true.
+Hypothesis Hlock : c_locked c = true.
+
+Record GI (s : st) : Prop := mkGI {
+  gi_L1 : forall t, in_region (thr s t) = true -> lock s = Some t;
+  gi_K1 : forall t todo k, scan_of (thr s t) = Some (todo, k) -> k = w_base w + length (g_snap_scan s);
+  gi_K2 : g_since_snap s = false -> sub_ok (g_snap_scan s) (mods s);
+  gi_K3 : g_since_snap s = false -> forall t todo k, scan_of (thr s t) = Some (todo, k) ->
+          forall a b, In (a, b) (g_snap_scan s) -> In a todo \/ settled w s b;
+  gi_K4 : NoDup (map fst (g_snap_scan s));
+  gi_A1 : g_since_cache s = false -> cache s = 0 \/ cache s = w_base w + length (g_snap_cache s);
+  gi_A2 : g_since_cache s = false -> sub_ok (g_snap_cache s) (mods s);
+  gi_A3 : g_since_cache s = false -> forall a b, In (a, b) (g_snap_cache s) -> settled w s b;
+  gi_A4 : NoDup (map fst (g_snap_cache s));
+  gi_D1 : NoDup (map fst (mods s))
+}.
+
+(* states that agree on the fields the invariant talks about *)
+Definition same_core (s s' : st) : Prop :=
+  mods s' = mods s /\ popped s' = popped s /\ cache s' = cache s /\ lock s' = lock s /\ thr s' = thr s
+  /\ g_since_cache s' = g_since_cache s /\ g_since_snap s' = g_since_snap s
+  /\ g_snap_cache s' = g_snap_cache s /\ g_snap_scan s' = g_snap_scan s.
+
+Lemma GI_ext s s' : same_core s s' -> GI s -> GI s'.
+Proof.
+  intros (a&b&c0&d&e&f&g&h&i) [L1 K1 K2 K3 K4 A1 A2 A3 A4 D1].
+  constructor; unfold settled in *; rewrite ?a, ?b, ?c0, ?d, ?e, ?f, ?g, ?h, ?i; assumption.
+Qed.
+
+Lemma GI_ir i s : GI s -> GI (apply_ir i s).
+Proof.
+  intros [L1 K1 K2 K3 K4 A1 A2 A3 A4 D1].
+  destruct i as [n o|n]; simpl.
+  - destruct (m_get (mods s) n) as [o'|] eqn:G.
+    + destruct (Nat.eqb_spec o' o) as [->|NE]; simpl.
+      * (* re-binding the same object: nothing observable changes *)
+        assert (SO : forall S, sub_ok S (mods s) -> sub_ok S (m_set (mods s) n o)).
+        { intros S H a b I. rewrite m_get_set. destruct (Nat.eqb_spec a n); [|auto].
+          subst. specialize (H _ _ I). rewrite G in H. exact H. }
+        constructor; simpl; unfold settled in *; simpl; rewrite ?orb_false_r; auto using NoDup_m_set.
+      * (* replacement: dirty *)
+        constructor; simpl; unfold settled in *; simpl; rewrite ?orb_true_r; auto using NoDup_m_set; discriminate.
+    + (* new name *)
+      assert (SO : forall S, sub_ok S (mods s) -> sub_ok S (m_set (mods s) n o)).
+      { intros S H a b I. rewrite m_get_set. destruct (Nat.eqb_spec a n); [|auto].
+        subst. rewrite (H _ _ I) in G. discriminate. }
+      constructor; simpl; unfold settled in *; simpl; rewrite ?orb_false_r; auto using NoDup_m_set.
+  - destruct (m_get (mods s) n) eqn:G; [|constructor; assumption].
+    constructor; simpl; unfold settled in *; simpl; auto using NoDup_m_del; discriminate.
+Qed.
+
+Lemma GI_irs l s : GI s -> GI (apply_irs l s).
+Proof.
+  revert s; induction l as [|i l IH]; intros s H; [exact H|].
+  unfold apply_irs in *. simpl. apply IH. apply GI_ir. exact H.
+Qed.
+
+Lemma GI_env e s : GI s -> GI (apply_env w e s).
+Proof.
+  intros H. destruct e as [i|n]; simpl; [apply GI_ir; exact H|].
+  destruct (m_get (pend s) n).
+  - eapply GI_ext; [|exact H]. repeat split.
+  - destruct (m_get (mods s) n) as [o'|].
+    + destruct (has_own w s o').
+      * eapply GI_ext; [|exact H]. repeat split.
+      * apply GI_irs. eapply GI_ext; [|exact H]. repeat split.
+    + eapply GI_ext; [|exact H]. repeat split.
+Qed.
+End Invariant.
+
+Section Invariant2.
+Variable c : cfg.
+Variable w : world.
+Hypothesis Hpop : c_pop c = true.
+Hypothesis Hlock : c_locked c = true.
+
+Definition same_but_thr_lock (s s' : st) : Prop :=
+  mods s' = mods s /\ popped s' = popped s /\ cache s' = cache s
+  /\ g_since_cache s' = g_since_cache s /\ g_since_snap s' = g_since_snap s
+  /\ g_snap_cache s' = g_snap_cache s /\ g_snap_scan s' = g_snap_scan s.
+
+Lemma region_scan p : in_region p = false -> scan_of p = None.
+Proof. destruct p; simpl; try reflexivity; discriminate. Qed.
+Lemma scan_region p x : scan_of p = Some x -> in_region p = true.
+Proof. destruct p; simpl; try reflexivity; discriminate. Qed.
+
+(* thread t moves between two pcs with the same region / scan status *)
+Lemma GI_upd s s' t p' :
+  GI w s -> same_but_thr_lock s s' -> lock s' = lock s -> thr s' = upd (thr s) t p' ->
+  in_region p' = in_region (thr s t) -> scan_of p' = scan_of (thr s t) -> GI w s'.
+Proof.
+  intros [L1 K1 K2 K3 K4 A1 A2 A3 A4 D1] (a&b&c0&f&g&h&i) LK T IR SC.
+  assert (TT : forall t', in_region (thr s' t') = in_region (thr s t') /\ scan_of (thr s' t') = scan_of (thr s t')).
+  { intros t'. rewrite T. unfold upd. destruct (Nat.eqb_spec t' t); [subst; auto|auto]. }
+  constructor; unfold settled in *; rewrite ?a, ?b, ?c0, ?LK, ?f, ?g, ?h, ?i; auto.
+  - intros t' H. rewrite (proj1 (TT t')) in H. auto.
+  - intros t' todo k H. rewrite (proj2 (TT t')) in H. eauto.
+  - intros G t' todo k H. rewrite (proj2 (TT t')) in H. eauto.
+Qed.
+
+(* thread t, inside the locked region, leaves it *)
+Lemma GI_leave s s' t p' :
+  GI w s -> same_but_thr_lock s s' -> thr s' = upd (thr s) t p' ->
+  in_region (thr s t) = true -> in_region p' = false -> GI w s'.
+Proof.
+  intros [L1 K1 K2 K3 K4 A1 A2 A3 A4 D1] (a&b&c0&f&g&h&i) T IN OUT.
+  assert (NONE : forall t', in_region (thr s' t') = false).
+  { intros t'. rewrite T. unfold upd. destruct (Nat.eqb_spec t' t); [exact OUT|].
+    destruct (in_region (thr s t')) eqn:Q; [|reflexivity].
+    apply L1 in Q. apply L1 in IN. congruence. }
+  constructor; unfold settled in *; rewrite ?a, ?b, ?c0, ?f, ?g, ?h, ?i; auto.
+  - intros t' H. rewrite NONE in H. discriminate.
+  - intros t' todo k H. apply scan_region in H. rewrite NONE in H. discriminate.
+  - intros G t' todo k H. apply scan_region in H. rewrite NONE in H. discriminate.
+Qed.
+
+Lemma release_core s t :
+  same_but_thr_lock s (release s t) /\ thr (release s t) = thr s.
+Proof.
+  unfold release, same_but_thr_lock. destruct (lock s) as [t'|]; [destruct (t' =? t)|]; simpl; repeat split.
+Qed.
+
+Lemma GI_call t nm mf bf cur todo k s :
+  GI w s -> thr s t = PCall nm mf bf cur todo k -> GI w (call c w t nm mf bf cur todo k s).
+Proof.
+  intros G E.
+  assert (STEP : forall s2, GI w s2 -> thr s2 = thr s ->
+            GI w (set_thr s2 t (PScan todo k)) /\ GI w (abort t s2)).
+  { intros s2 G2 T2. split.
+    - eapply GI_upd with (s := s2) (t := t) (p' := PScan todo k); try exact G2; try reflexivity.
+      + repeat split.
+      + rewrite T2, E. reflexivity.
+      + rewrite T2, E. reflexivity.
+    - unfold abort. destruct (release_core s2 t) as [SB TR].
+      eapply GI_leave with (s := s2) (t := t) (p' := PDone false); try exact G2.
+      + simpl. exact SB.
+      + simpl. rewrite TR. reflexivity.
+      + rewrite T2, E. reflexivity.
+      + reflexivity. }
+  assert (LOG : forall s0 e, GI w s0 -> GI w (add_log s0 e)).
+  { intros s0 e H. eapply GI_ext; [|exact H]. repeat split. }
+  unfold call.
+  destruct mf as [o'|]; [|destruct bf as [f|]].
+  - set (s2 := apply_irs _ _).
+    assert (G2 : GI w s2) by (apply GI_irs, LOG, G).
+    assert (T2 : thr s2 = thr s) by (unfold s2; irs_rw; reflexivity).
+    destruct (fbeh _); [|destruct (c_guarded c)|]; try apply (STEP s2 G2 T2).
+    apply (STEP (add_log s2 _)); [apply LOG; exact G2|exact T2].
+  - set (s2 := apply_irs _ _).
+    assert (G2 : GI w s2) by (apply GI_irs, LOG, G).
+    assert (T2 : thr s2 = thr s) by (unfold s2; irs_rw; reflexivity).
+    destruct (fbeh _); [|destruct (c_guarded c)|]; try apply (STEP s2 G2 T2).
+    apply (STEP (add_log s2 _)); [apply LOG; exact G2|exact T2].
+  - apply (STEP s G eq_refl).
+Qed.
+End Invariant2.
+
+Section Invariant3.
+Variable c : cfg.
+Variable w : world.
+Hypothesis Hpop : c_pop c = true.
+Hypothesis Hlock : c_locked c = true.
+
+Lemma visit_pc_scan s nm todo k :
+  scan_of (visit_pc w s nm todo k) = Some (todo, k) /\ in_region (visit_pc w s nm todo k) = true.
+Proof. unfold visit_pc. destruct (some_or _ _); split; reflexivity. Qed.
+
+Lemma GI_visit t nm todo k s :
+  GI w s -> thr s t = PScan (nm :: todo) k -> GI w (visit c w t nm todo k s).
+Proof.
+  intros [L1 K1 K2 K3 K4 A1 A2 A3 A4 D1] E.
+  destruct (visit_spec c w t nm todo k s Hpop) as (PO & _ & _ & T & MO & CA & LK & SC & SS & _ & _ & _ & SNC & SNS).
+  destruct (visit_pc_scan s nm todo k) as [VS VR].
+  assert (MONO : forall b, settled w s b -> settled w (visit c w t nm todo k s) b).
+  { intros b [H|H]; [left; exact H|right]. rewrite PO. destruct (visit_mf w s nm); [right|]; exact H. }
+  assert (LT : lock s = Some t) by (apply L1; rewrite E; reflexivity).
+  assert (ONLY : forall t' x, scan_of (thr s t') = Some x -> t' = t).
+  { intros t' x H. apply scan_region in H. apply L1 in H. congruence. }
+  constructor; rewrite ?MO, ?CA, ?LK, ?SC, ?SS, ?SNC, ?SNS; auto.
+  - intros t' H. rewrite T in H. unfold upd in H. destruct (Nat.eqb_spec t' t); [subst; exact LT|auto].
+  - intros t' todo' k' H. rewrite T in H. unfold upd in H. destruct (Nat.eqb_spec t' t).
+    + rewrite VS in H. inversion H; subst. eapply K1. rewrite E. reflexivity.
+    + eauto.
+  - intros G t' todo' k' H a b I. rewrite T in H. unfold upd in H. destruct (Nat.eqb_spec t' t).
+    + rewrite VS in H. inversion H; subst todo' k'. subst t'.
+      destruct (K3 G t (nm :: todo) k) with (a := a) (b := b) as [[X|X]|X]; try (rewrite E; reflexivity); auto.
+      * (* the name just visited *)
+        subst a. right. specialize (K2 G _ _ I).
+        destruct (visit_mf w s nm) as [o'|] eqn:V.
+        -- destruct (visit_mf_some w s nm V) as (M1 & _ & _). rewrite K2 in M1. inversion M1; subst.
+           right. rewrite PO. left. reflexivity.
+        -- apply MONO. eapply visit_mf_none; eassumption.
+    + exfalso. apply n. eapply ONLY. exact H.
+  - intros G a b I. apply MONO. eauto.
+Qed.
+
+Lemma GI_tstep t s : GI w s -> GI w (tstep c w t s).
+Proof.
+  intros G. unfold tstep.
+  destruct (thr s t) as [| |l| | |todo k|nm mf bf cur todo k|ok] eqn:E.
+  - (* start *)
+    eapply GI_upd with (s := s) (t := t) (p' := PEnter); try exact G; try reflexivity; try (rewrite E; reflexivity).
+    repeat split.
+  - eapply GI_upd with (s := s) (t := t) (p' := PRead _); try exact G; try reflexivity; try (rewrite E; reflexivity).
+    repeat split.
+  - destruct (l =? cache s).
+    + eapply GI_upd with (s := s) (t := t) (p' := PDone true); try exact G; try reflexivity; try (rewrite E; reflexivity).
+      repeat split.
+    + eapply GI_upd with (s := s) (t := t) (p' := PSlow); try exact G; try reflexivity; try (rewrite E; reflexivity).
+      repeat split.
+  - (* acquire *)
+    rewrite Hlock. destruct (lock s) as [t0|] eqn:LK; [exact G|].
+    destruct G as [L1 K1 K2 K3 K4 A1 A2 A3 A4 D1].
+    assert (NONE : forall t', in_region (thr s t') = false).
+    { intros t'. destruct (in_region (thr s t')) eqn:Q; [|reflexivity]. apply L1 in Q. congruence. }
+    constructor; simpl; auto.
+    + intros t' H. destruct (Nat.eqb_spec t' t); [subst; reflexivity|]. rewrite NONE in H. discriminate.
+    + intros t' todo k H. destruct (Nat.eqb_spec t' t); [discriminate|eauto].
+    + intros X t' todo k H. destruct (Nat.eqb_spec t' t); [discriminate|eauto].
+  - (* snapshot *)
+    destruct G as [L1 K1 K2 K3 K4 A1 A2 A3 A4 D1].
+    assert (LT : lock s = Some t) by (apply L1; rewrite E; reflexivity).
+    assert (ONLY : forall t', in_region (thr s t') = true -> t' = t).
+    { intros t' H. apply L1 in H. congruence. }
+    constructor; simpl; auto.
+    + intros t' H. destruct (Nat.eqb_spec t' t); [subst; exact LT|auto].
+    + intros t' todo k H. destruct (Nat.eqb_spec t' t); [inversion H; reflexivity|].
+      exfalso. apply n. apply ONLY. eapply scan_region. exact H.
+    + intros _ a b I. apply In_m_get; assumption.
+    + intros _ t' todo k H a b I. destruct (Nat.eqb_spec t' t).
+      * inversion H; subst. left. change a with (fst (a, b)). apply in_map. exact I.
+      * exfalso. apply n. apply ONLY. eapply scan_region. exact H.
+  - destruct todo as [|nm todo].
+    + (* write the cache, release, return *)
+      destruct G as [L1 K1 K2 K3 K4 A1 A2 A3 A4 D1].
+      assert (LT : lock s = Some t) by (apply L1; rewrite E; reflexivity).
+      assert (NONE : forall t', t' <> t -> in_region (thr s t') = false).
+      { intros t' NE. destruct (in_region (thr s t')) eqn:Q; [|reflexivity]. apply L1 in Q. congruence. }
+      assert (KK : k = w_base w + length (g_snap_scan s)) by (eapply K1; rewrite E; reflexivity).
+      set (s1 := mkst (mods s) (popped s) (pend s) k (lock s) (thr s) (log s) (nreg s)
+                      (g_since_snap s) (g_since_snap s) (g_nrem s) (g_started s) (g_late s) (g_snap_scan s) (g_snap_scan s)).
+      destruct (release_core s1 t) as [(a&b&c0&f&g&h&i) TR].
+      constructor; simpl; unfold settled; rewrite ?a, ?b, ?c0, ?f, ?g, ?h, ?i, ?TR; simpl; auto.
+      * intros t' H. destruct (Nat.eqb_spec t' t); [discriminate|]. rewrite NONE in H by assumption. discriminate.
+      * intros t' todo k' H. destruct (Nat.eqb_spec t' t); [discriminate|].
+        apply scan_region in H. rewrite NONE in H by assumption. discriminate.
+      * intros X t' todo k' H. destruct (Nat.eqb_spec t' t); [discriminate|].
+        apply scan_region in H. rewrite NONE in H by assumption. discriminate.
+      * intros X a0 b0 I. destruct (K3 X t [] k) with (a := a0) (b := b0) as [[]|Y]; auto; [rewrite E; reflexivity|].
+        destruct Y as [Y|Y]; [left; exact Y|right; rewrite b; exact Y].
+    + apply GI_visit; assumption.
+  - apply GI_call; assumption.
+  - eapply GI_upd with (s := s) (t := t) (p' := PEnter); try exact G; try reflexivity; try (rewrite E; reflexivity).
+    repeat split.
+Qed.
+
+Lemma GI_init scanned : 1 <= w_base w -> GI w (init w scanned).
+Proof.
+  intros _. constructor; simpl.
+  - intros t H; discriminate.
+  - intros t todo k H; discriminate.
+  - intros _ a b [].
+  - intros _ t todo k H; discriminate.
+  - constructor.
+  - intros _. destruct scanned; [right; lia|left; reflexivity].
+  - intros _ a b [].
+  - intros _ a b [].
+  - constructor.
+  - constructor.
+Qed.
+
+Lemma GI_reachable scanned s : 1 <= w_base w -> reachable c w scanned s -> GI w s.
+Proof.
+  intros B R. refine (@reachable_ind c w scanned (GI w) _ _ s R).
+  - apply GI_init; exact B.
+  - intros s0 l H. destruct l; simpl; [apply GI_env|apply GI_tstep]; exact H.
+Qed.
+End Invariant3.
+
+(* ------------------------------------------------------------------ steps that remove nothing *)
+Lemma length_m_set M n o : length M <= length (m_set M n o).
+Proof.
+  induction M as [|[k v] r IH]; simpl; [lia|]. destruct (k =? n); simpl; lia.
+Qed.
+
+Definition keeps (s s' : st) : Prop :=
+  g_since_cache s' = g_since_cache s /\ g_since_snap s' = g_since_snap s
+  /\ (forall a b, m_get (mods s) a = Some b -> m_get (mods s') a = Some b)
+  /\ length (mods s) <= length (mods s').
+
+Lemma keeps_refl s : keeps s s.
+Proof. repeat split; auto. Qed.
+
+Lemma keeps_trans s1 s2 s3 : keeps s1 s2 -> keeps s2 s3 -> keeps s1 s3.
+Proof.
+  intros (a&b&c0&d) (a'&b'&c'&d'). repeat split; try congruence; auto. lia.
+Qed.
+
+Lemma ir_nrem i s : g_nrem s <= g_nrem (apply_ir i s) /\ (g_nrem (apply_ir i s) = g_nrem s -> keeps s (apply_ir i s)).
+Proof.
+  destruct i as [n o|n]; simpl.
+  - destruct (m_get (mods s) n) as [o'|] eqn:G.
+    + destruct (Nat.eqb_spec o' o) as [->|NE]; simpl; split; try lia.
+      * intros _. unfold keeps; simpl. rewrite !orb_false_r. repeat split; auto using length_m_set.
+        intros a b H. rewrite m_get_set. destruct (Nat.eqb_spec a n); [subst; congruence|exact H].
+    + simpl. split; [lia|]. intros _. unfold keeps; simpl. rewrite !orb_false_r. repeat split; auto using length_m_set.
+      intros a b H. rewrite m_get_set. destruct (Nat.eqb_spec a n); [subst; congruence|exact H].
+  - destruct (m_get (mods s) n); simpl; split; try lia. intros _. apply keeps_refl.
+Qed.
+
+Lemma irs_nrem l s : g_nrem s <= g_nrem (apply_irs l s) /\ (g_nrem (apply_irs l s) = g_nrem s -> keeps s (apply_irs l s)).
+Proof.
+  revert s; induction l as [|i l IH]; intros s.
+  - split; [apply le_n|intros _; apply keeps_refl].
+  - unfold apply_irs in *. simpl.
+    destruct (ir_nrem i s) as [A1 A2]. destruct (IH (apply_ir i s)) as [B1 B2].
+    split; [lia|]. intros H. eapply keeps_trans; [apply A2; lia|apply B2; lia].
+Qed.
+
+Lemma call_nrem c w t nm mf bf cur todo k s :
+  let s' := call c w t nm mf bf cur todo k s in
+  g_nrem s <= g_nrem s' /\ cache s' = cache s /\ g_snap_scan s' = g_snap_scan s
+  /\ (g_nrem s' = g_nrem s -> keeps s s').
+Proof.
+  assert (RL : forall s0, g_nrem (release s0 t) = g_nrem s0 /\ cache (release s0 t) = cache s0
+             /\ g_snap_scan (release s0 t) = g_snap_scan s0 /\ keeps s0 (release s0 t)).
+  { intros s0. unfold release. destruct (lock s0) as [t'|]; [destruct (t' =? t)|]; simpl; repeat split; auto. }
+  assert (LG : forall s0 e l, g_nrem s0 <= g_nrem (apply_irs l (add_log s0 e))
+             /\ (g_nrem (apply_irs l (add_log s0 e)) = g_nrem s0 -> keeps s0 (apply_irs l (add_log s0 e)))).
+  { intros s0 e l. destruct (irs_nrem l (add_log s0 e)) as [A B]. simpl in *. split; [exact A|].
+    intros H. specialize (B H). destruct B as (a&b&c0&d). repeat split; auto. }
+  unfold call, abort.
+  destruct mf as [o'|]; [|destruct bf as [f|]].
+  - match goal with |- context [apply_irs ?l (add_log s ?e)] => destruct (LG s e l) as [A B]; set (s2 := apply_irs l (add_log s e)) in * end.
+    assert (C2 : cache s2 = cache s /\ g_snap_scan s2 = g_snap_scan s) by (unfold s2; irs_rw; rewrite (proj2 (proj2 (proj2 (proj2 (proj2 (proj2 (proj2 (proj2 (proj2 (apply_irs_fields _ _)))))))))); auto).
+    destruct (RL s2) as (R1 & R2 & R3 & R4).
+    destruct (fbeh _); [|destruct (c_guarded c)|]; simpl; rewrite ?R1, ?R2, ?R3; repeat split; try tauto;
+      try (intros H; specialize (B H); destruct B as (a&b&c0&d); destruct R4 as (a'&b'&c'&d');
+           unfold keeps; simpl; repeat split; try congruence; auto; lia).
+  - match goal with |- context [apply_irs ?l (add_log s ?e)] => destruct (LG s e l) as [A B]; set (s2 := apply_irs l (add_log s e)) in * end.
+    assert (C2 : cache s2 = cache s /\ g_snap_scan s2 = g_snap_scan s) by (unfold s2; irs_rw; rewrite (proj2 (proj2 (proj2 (proj2 (proj2 (proj2 (proj2 (proj2 (proj2 (apply_irs_fields _ _)))))))))); auto).
+    destruct (RL s2) as (R1 & R2 & R3 & R4).
+    destruct (fbeh _); [|destruct (c_guarded c)|]; simpl; rewrite ?R1, ?R2, ?R3; repeat split; try tauto;
+      try (intros H; specialize (B H); destruct B as (a&b&c0&d); destruct R4 as (a'&b'&c'&d');
+           unfold keeps; simpl; repeat split; try congruence; auto; lia).
+  - simpl. repeat split; auto.
+Qed.
